@@ -54,6 +54,9 @@ class P(Process):
         sch = {'s': {'x_' + n: {'_default': 0},
                      'h_' + n: {'_default': 1}},
                'r': {'q_' + n: {'_default': 5}},
+               # a variable two levels below the branch that carries the
+               # branch-level flag
+               'sd': {'deep': {'k_' + n: {'_default': 2}}},
                # a falsy non-numeric value that must still be emitted
                'b': {'off_' + n: {'_default': False, '_updater': 'set',
                                   '_emit': True}}}
@@ -64,11 +67,13 @@ class P(Process):
             sch['s']['x_' + n]['_emit'] = lf[0]
             sch['s']['h_' + n]['_emit'] = lf[1]
             sch['r']['q_' + n]['_emit'] = lf[2]
+            sch['sd']['deep']['k_' + n]['_emit'] = lf[1]
         if self.parameters['via'] == 'schema':
             f = self.parameters['flags']
             sch['s']['x_' + n]['_emit'] = f[('s', 'x_' + n)]
             sch['s']['h_' + n]['_emit'] = f[('s', 'h_' + n)]
             sch['r']['q_' + n]['_emit'] = f[('r', 'q_' + n)]
+            sch['sd']['deep']['k_' + n]['_emit'] = f[('s', 'deep', 'k_' + n)]
         return sch
 
     def calculate_timestep(self, states):
@@ -81,7 +86,8 @@ class P(Process):
             CTX['deltas'][key] = CTX['ctx'].int('d', -3, 3)
         return {'s': {'x_' + self.name: CTX['deltas'][key],
                       'h_' + self.name: 1},
-                'r': {'q_' + self.name: 1}}
+                'r': {'q_' + self.name: 1},
+                'sd': {'deep': {'k_' + self.name: 1}}}
 
 
 class UnitsProc(Process):
@@ -170,9 +176,13 @@ def run_engine(ctx, cfg, flags, es, ivs):
     kwargs = {}
     if cfg['via'] == 'store_schema':
         ss = {}
-        for (a, b), f in flags.items():
-            if b != 'w':
-                ss.setdefault(a, {})[b] = {'_emit': f}
+        for path_, f in flags.items():
+            if path_[-1] == 'w':
+                continue
+            d_ = ss
+            for seg in path_[:-1]:
+                d_ = d_.setdefault(seg, {})
+            d_[path_[-1]] = {'_emit': f}
         kwargs['store_schema'] = ss
     elif cfg['via'] == 'branch':
         kwargs['store_schema'] = {'s': {'_emit': flags[('s', 'x_p0')]},
@@ -201,7 +211,8 @@ def run_engine(ctx, cfg, flags, es, ivs):
     Engine.__init__(
         e, processes=procs, steps={'last': Last({'emit_w': flags[('s', 'w')]})},
         flow={'last': []},
-        topology={**{n: {'s': ('s',), 'r': ('r',), 'b': ('b',)} for n in names},
+        topology={**{n: {'s': ('s',), 'r': ('r',), 'b': ('b',),
+                         'sd': ('s',)} for n in names},
                   'last': {'s': ('s',)}, **extra_topology},
         emitter=emitter, emit_step=es, display_info=False, **kwargs)
     for j, iv in enumerate(ivs):
@@ -298,6 +309,10 @@ def body(ctx, cfg):
                 flags[p] = p != ('s', 'x_p1')
     for n in ('p0', 'p1'):
         flags[('b', 'off_' + n)] = True
+        # s/deep/k_<n>: follows the 's' branch flag under a branch-level
+        # override, is on otherwise
+        flags[('s', 'deep', 'k_' + n)] = (flags[('s', 'x_p0')]
+                                          if cfg['via'] == 'branch' else True)
     if cfg['via'] == 'store_schema':
         # the leaves declare their own flags; the per-leaf store_schema entry
         # must override them in both directions
